@@ -22,8 +22,12 @@
     bump one versioned item, load, record, load (nothing changed).  Oracle (statement + the harness's own
     book-keeping of what was persisted, never read back from the code): at every load exactly the owners of an
     item whose current version is not among the persisted ones are scheduled - so nothing after a load whose
-    runs were recorded, and exactly the owner after the bump.  Each history runs in a forked child, i.e. in a
-    process that never loaded anything before, so a finding does not depend on the histories run earlier.
+    runs were recorded, and exactly the owner after the bump.  The histories run one after the other in this
+    process (only the first one sees a process that never loaded anything); what they flag is a candidate: it is
+    reported only if it shows again when that single history is run in a process that has never loaded anything
+    (a grandchild of a helper forked before the first load), so a reported finding does not depend on the
+    histories run before it and replays in a fresh process.  Candidates that do not confirm are listed under
+    'unconfirmed'.
 
 Construct.graph is replaced by a stand-in that still runs Node.graph (node levels) but renders nothing.
 '''
@@ -481,8 +485,23 @@ def _in_child(fn):
     return json.loads(text)
 
 
+def _hist_plain(job):
+    '''[spec, stale, case index, targets, steps] -> [violations, loads]; engine built (and removed) here'''
+    spec, stale, ci, targets, steps = job
+    G.quiet()
+    dawgie.pl.dag.Construct.graph = staticmethod(_graph)
+    with G.Workshop('c15h') as shop:
+        eng = shop.build(spec)
+        try:
+            factories = eng.scan()
+        except Exception as e:  # pylint: disable=broad-except
+            return [[('C15.build.error', f'scan:{type(e).__name__}', repr(e), 'scan succeeds')], 0]
+        return list(history_once(eng, factories, stale, ci, targets, steps))
+
+
 def _hist_worker(job):
-    '''job = list of (spec, [(stale, case index, targets, steps), ...]) -> per spec a list of [violations, loads]'''
+    '''job = list of (spec, [(stale, case index, targets, steps), ...]) -> per spec a list of [violations, loads];
+    everything in this process, one history after the other'''
     G.quiet()
     dawgie.pl.dag.Construct.graph = staticmethod(_graph)
     res = []
@@ -494,15 +513,60 @@ def _hist_worker(job):
             except Exception as e:  # pylint: disable=broad-except
                 res.append([[[('C15.build.error', f'scan:{type(e).__name__}', repr(e), 'scan succeeds')], 0] for _ in runs])
                 continue
-            res.append(
-                [
-                    _in_child(lambda r=r: history_once(eng, factories, *r))  # pylint: disable=cell-var-from-loop
-                    for r in runs
-                ]
-            )
+            res.append([list(history_once(eng, factories, *r)) for r in runs])
             eng.forget()
             shop.engines.remove(eng)
     return res
+
+
+class _Clean:
+    '''a helper process forked NOW (before this process loads anything).  run(job) makes it fork a grandchild
+    that runs that one history: a process that has never loaded anything, whatever happened here meanwhile'''
+
+    def __init__(self):
+        a_r, a_w = os.pipe()
+        b_r, b_w = os.pipe()
+        self.pid = os.fork()
+        if self.pid == 0:
+            code = 1
+            try:
+                os.close(a_w)
+                os.close(b_r)
+                with os.fdopen(a_r, 'r', encoding='utf-8') as req, os.fdopen(b_w, 'w', encoding='utf-8') as out:
+                    for line in req:
+                        if line.strip() == 'quit':
+                            break
+                        job = json.loads(line)
+                        try:
+                            ans = _in_child(lambda job=job: _hist_plain(job))
+                        except Exception as e:  # pylint: disable=broad-except
+                            ans = {'error': repr(e)}
+                        out.write(json.dumps(ans) + '\n')
+                        out.flush()
+                code = 0
+            finally:
+                os._exit(code)  # pylint: disable=protected-access
+        os.close(a_r)
+        os.close(b_w)
+        self.req = os.fdopen(a_w, 'w', encoding='utf-8')
+        self.ans = os.fdopen(b_r, 'r', encoding='utf-8')
+
+    def run(self, job):
+        self.req.write(json.dumps(job) + '\n')
+        self.req.flush()
+        line = self.ans.readline()
+        ans = json.loads(line) if line else {'error': 'helper process died'}
+        if isinstance(ans, dict):
+            raise RuntimeError('C15 harness: clean-process run failed: %s' % ans['error'])
+        return ans
+
+    def close(self):
+        try:
+            self.req.write('quit\n')
+            self.req.close()
+            self.ans.close()
+        finally:
+            os.waitpid(self.pid, 0)
 
 
 def history_cases(tier, seed):
@@ -583,6 +647,14 @@ def _worker(job):
 
 def run(tier: str, seed: int) -> dict:
     t0 = time.time()
+    clean = _Clean()  # forked before anything is loaded here
+    try:
+        return _run(tier, seed, t0, clean)
+    finally:
+        clean.close()
+
+
+def _run(tier, seed, t0, clean):
     violations, counts = {}, {}
 
     def note(clause, sig, inp, obs, exp):
@@ -602,20 +674,34 @@ def run(tier: str, seed: int) -> dict:
     hjobs = [(hengines[ei], runs) for ei, runs in per_engine.items()]
     hresults = G.run_cases(_hist_worker, hjobs, 16 if tier == 'thorough' else 1)
     histories, hloads, hkeys = 0, 0, set()
+    candidates, unconfirmed = {}, []
     for (spec, runs), res in zip(hjobs, hresults):
         for (stale, ci, targets, steps), (bad, loads) in zip(runs, res):
             histories += 1
             hloads += loads
             key = (G.spec_key(spec), tuple(sorted(k for k, v in stale.items() if v)), len(targets), json.dumps(steps))
             hkeys.update((key, k) for k in range(loads))
-            for clause, sig, obs, exp in bad:
-                note(
-                    clause,
-                    sig,
-                    {'part': 'reload', 'spec': spec, 'stale': stale, 'case_index': ci, 'targets': targets, 'steps': steps},
-                    obs,
-                    exp,
-                )
+            for clause, sig, _obs, _exp in bad:
+                counts[sig] = counts.get(sig, 0) + 1
+                if len(candidates.setdefault((clause, sig), [])) < 3:
+                    candidates[(clause, sig)].append([spec, stale, ci, targets, steps])
+    for (clause, sig), jobs_ in candidates.items():
+        for job_ in jobs_:
+            # alone, in a process that has never loaded anything
+            again = [b for b in clean.run(job_)[0] if b[0] == clause and b[1] == sig]
+            hloads += sum(1 for st in job_[4] if st[0] == 'load')
+            if again:
+                violations[sig] = {
+                    'clause': clause,
+                    'signature': sig,
+                    'input': dict(zip(('spec', 'stale', 'case_index', 'targets', 'steps'), job_), part='reload'),
+                    'observed': again[0][2],
+                    'expected': again[0][3],
+                }
+                break
+        else:
+            unconfirmed.append({'clause': clause, 'signature': sig, 'count': counts.pop(sig),
+                                'input': dict(zip(('spec', 'stale', 'case_index', 'targets', 'steps'), jobs_[0]), part='reload')})
 
     engines, cases, n_enum = build_cases(tier, seed)
     per_engine = {}
@@ -672,6 +758,8 @@ def run(tier: str, seed: int) -> dict:
         'violations': out,
         'clauses': CLAUSES,
         'seconds': round(time.time() - t0, 2),
+        # reload part: flagged after other histories in this process but not when run alone in a clean process
+        'unconfirmed': unconfirmed,
     }
 
 
@@ -685,8 +773,8 @@ def replay(case: dict) -> dict:
     if inp.get('part') == 'order':
         bad, _ = _pair(inp['carriers'][0], inp['carriers'][1], tuple(inp['a']), tuple(inp['b']))
     elif inp.get('part') == 'reload':
-        res = _hist_worker([(inp['spec'], [(inp['stale'], inp['case_index'], inp['targets'], inp['steps'])])])
-        bad = res[0][0][0]
+        # in a child: the caller's process stays as it is, so replays are independent of each other
+        bad = _in_child(lambda: _hist_plain([inp['spec'], inp['stale'], inp['case_index'], inp['targets'], inp['steps']]))[0]
         if case.get('signature') is not None:
             bad = [b for b in bad if b[1] == case['signature']]
     else:
